@@ -27,14 +27,14 @@ theorem mapAt_of_handle {t : HTree} {h : Nat} (g : HTree → HTree) (e : t.handl
     mapAt h g t = g t := by
   cases t; simp only [HTree.handle] at e; simp [mapAt, e]
 
-theorem mapAtList_append (h : Nat) (g : HTree → HTree) (a b : List HTree) :
+theorem ffx_mapAtList_append (h : Nat) (g : HTree → HTree) (a b : List HTree) :
     mapAtList h g (a ++ b) = mapAtList h g a ++ mapAtList h g b := by
   induction a with
   | nil => rfl
   | cons k ks ih => simp [mapAtList, ih]
 
 mutual
-  theorem find?_mapAt_self (p : Nat) (g : HTree → HTree) (hg : ∀ t, (g t).handle = t.handle) :
+  theorem ffx_find?_mapAt_self (p : Nat) (g : HTree → HTree) (hg : ∀ t, (g t).handle = t.handle) :
       ∀ t : HTree, find? p (mapAt p g t) = (find? p t).map g
     | .node h v ks => by
       by_cases e : h = p
@@ -48,7 +48,7 @@ mutual
     | [] => rfl
     | k :: ks => by
       simp only [mapAtList, findList?]
-      rw [find?_mapAt_self p g hg k, findList?_mapAtList_self p g hg ks]
+      rw [ffx_find?_mapAt_self p g hg k, findList?_mapAtList_self p g hg ks]
       cases find? p k <;> rfl
 end
 
@@ -86,7 +86,7 @@ mutual
           simp [mapAt, appKids_node]
         rw [e1, e2]
         unfold mapAt
-        rw [if_neg (fun e' => hn.1 e'.symm), mapAtList_append, mapAtList_of_not_mem_ff c g ks hn.2]
+        rw [if_neg (fun e' => hn.1 e'.symm), ffx_mapAtList_append, mapAtList_of_not_mem_ff c g ks hn.2]
         simp [mapAtList, mapAt_of_handle g hx]
       · simp only [mapAt, e, if_false]
         rw [if_neg (fun e' => hn.1 e'.symm), mapAtList_in_appended p c g x hx hpc ks hn.2]
@@ -111,8 +111,8 @@ mutual
       by_cases e : h = p
       · rw [mapAt_of_handle _ (by simp [HTree.handle, e]), appKids_node]
         unfold find?
-        rw [if_neg (fun e' => hn.1 e'.symm), findList?_append_of_not_mem _ _ _ hn.2, ← hx]
-        exact findList?_cons_self x []
+        rw [if_neg (fun e' => hn.1 e'.symm), ffx_findList?_append_of_not_mem _ _ _ hn.2, ← hx]
+        exact ffx_findList?_cons_self x []
       · have hp' : p ∈ handlesList ks := by
           simp only [handles, List.mem_cons] at hp
           rcases hp with hp | hp
@@ -134,7 +134,7 @@ mutual
       unfold findList?
       by_cases hk : p ∈ handles k
       · rw [find?_appended p c x hx k hn.1 hk]
-      · rw [mapAt_of_not_mem_ff p _ k hk, find?_none_of_not_mem c k hn.1]
+      · rw [mapAt_of_not_mem_ff p _ k hk, ffx_find?_none_of_not_mem c k hn.1]
         exact findList?_appended p c x hx ks hn.2 (hp.resolve_left hk)
 end
 
